@@ -1,6 +1,7 @@
 """C15 - service discovery.  spec/Discov.tla (abstract view of the registry), spec/DiscovImpl.tla
 (handleChanges / container mechanism, checked against Discov), spec/DiscovGen.tla (behaviour
 generator) -> replay through the real discov.NewSubscriber on a scripted EtcdClient."""
+import os
 from vlib import core
 
 PKG = "./lib/discov/internal"
@@ -34,11 +35,15 @@ META = dict(
          "executed through the public discov.NewSubscriber/Values/AddListener on the real registry, cluster and "
          "container code, with a scripted EtcdClient (Get = snapshot+revision, Watch = unbuffered channel fed by "
          "the driver from an event log honouring the requested start revision) seeded into the connection manager; "
-         "after every step Values() of every subscriber and the listener counters are compared with the prediction.",
+         "after every step Values() of every subscriber and the listener counters are compared with the prediction. "
+         "A sample of behaviours is replayed with Get faults (quick errors, Gets blocking until the request deadline; "
+         "RequestTimeout shortened to 200 ms through the exported package variable) injected into a reload or the "
+         "initial load: the predictions are unchanged and a load that never finishes although the registry answers "
+         "again is a disagreement.",
     note="Trusted: TLC, the scripted EtcdClient (model etcd written for this check), the barrier (an event of unknown "
          "type whose error log line acknowledges that the watch goroutine is idle again), cluster.reload called "
          "synchronously instead of from the connection-state watcher (statwatcher.go is not exercised). Not covered: "
-         "subscribers attaching while the watch is down, several prefixes on one cluster, Get failures/retries, "
+         "subscribers attaching while the watch is down, several prefixes on one cluster, "
          "watch channel errors/cancellation, compaction, a key changing its value without the subscriber seeing the "
          "delete (outside the statement's 'one value during its life' only if the key is re-created; probed, see "
          "evidence notes), events being processed concurrently with a reload (cluster.reload waits for the watch "
@@ -108,6 +113,12 @@ def run(ctx):
         path, cnt = ctx.write_cases(name + ".ndjson", cases)
         ctx.samples += core.sample_of(cases, 1)
         ctx.replay(PKG, OVERLAY, RUN, path, label=name, env=dict(VERIF_C15_VALOF=ALLV), shards=16, binp=binp)
+    # Get faults (errors, time-outs) during a reload / the initial load: same predictions
+    allc = [c for name, K, kw in plans for c in open(os.path.join(ctx.build, name + ".ndjson")).read().splitlines()]
+    fc = fault_cases(ctx, allc, 16 if ctx.quick else 96)
+    path, cnt = ctx.write_cases("faults.ndjson", fc)
+    ctx.replay(PKG, OVERLAY, RUN, path, label="faults", env=dict(VERIF_C15_VALOF=ALLV, VERIF_C15_REQ_TIMEOUT_MS=200),
+               shards=16, binp=binp)
     for name, K, kw, num in sims:
         cases = sorted(set(gen(ctx, name, K, simulate=num, **kw)))
         path, cnt = ctx.write_cases(name + ".ndjson", cases)
@@ -116,6 +127,29 @@ def run(ctx):
     probe(ctx)
     ctx.assumptions += ["scripted EtcdClient stands for etcd (snapshot+revision, ordered watch from a requested revision)",
                         "cluster.reload is invoked by the driver, not by the gRPC connection-state watcher"]
+
+
+FAULTS = [["err"], ["block"], ["err", "err"], ["block", "err"], ["err", "block"], ["block", "block"]]
+
+
+def fault_cases(ctx, cases, n):
+    """Get faults are below the abstraction of Discov.tla (a failing Get is a longer outage): the
+    predictions of a generated behaviour stay as they are, one of its reload steps (or its first
+    attach = the initial load) is annotated with a fault pattern for the scripted Get."""
+    import json, random
+    rng = random.Random(ctx.seed * 7919 + 15)
+    withrel = [c for c in cases if '"op":"reload"' in c and '"op":"disconnect"' in c]
+    out = []
+    for i, raw in enumerate(rng.sample(withrel, min(n, len(withrel)))):
+        steps = json.loads(raw)
+        if i % 4 == 3:
+            tgt = [j for j, st in enumerate(steps) if st["op"] == "attach"][:1]
+        else:
+            tgt = [j for j, st in enumerate(steps) if st["op"] == "reload"]
+            tgt = [tgt[rng.randrange(len(tgt))]]
+        steps[tgt[0]]["faults"] = FAULTS[i % len(FAULTS)]
+        out.append(json.dumps(steps, separators=(",", ":")))
+    return out
 
 
 def probe(ctx):
@@ -131,4 +165,7 @@ def probe(ctx):
 
 def replay(ctx, rp):
     path, _ = ctx.write_cases("replay.ndjson", [rp["case"]])
-    ctx.replay(PKG, OVERLAY, RUN, path, label="replay", env=dict(VERIF_C15_VALOF=ALLV))
+    env = dict(VERIF_C15_VALOF=ALLV)
+    if '"faults"' in rp["case"]:
+        env["VERIF_C15_REQ_TIMEOUT_MS"] = 200
+    ctx.replay(PKG, OVERLAY, RUN, path, label="replay", env=env)
